@@ -2,7 +2,11 @@
 
 package validation
 
-import "regexp"
+import (
+	"regexp"
+
+	"k8s.io/apimachinery/pkg/util/validation/field"
+)
 
 // VerifC06Regexps exposes the validator regular expressions of this package whose hand
 // transcriptions in coq/Tmpl/Validators.v are compared with them on a corpus on every run.
@@ -16,5 +20,18 @@ func VerifC06Regexps() map[string]*regexp.Regexp {
 		"grpc_service@validation.grpcRegexp":            grpcRegexp,
 		"ts_hash@validation.hashMethodRegexp":           hashMethodRegexp,
 		"rate@validation.rateRegexp":                    rateRegexp,
+	}
+}
+
+// VerifC06UpperMatchers exposes validators that are parsers rather than regular expressions; their
+// models in coq/Tmpl/Validators.v are UPPER BOUNDS (every accepted string must match the model).
+func VerifC06UpperMatchers() map[string]func(string) bool {
+	return map[string]func(string) bool{
+		"ip_or_cidr_upper@validation.validateIPorCIDR": func(s string) bool {
+			return len(validateIPorCIDR(s, field.NewPath("x"))) == 0
+		},
+		"route_path_upper@validation.validateRoutePath": func(s string) bool {
+			return len(validateRoutePath(s, field.NewPath("x"))) == 0
+		},
 	}
 }
